@@ -135,6 +135,16 @@ func c03Program(bodies [][]T, vars []map[string]*ref.Var, shape int) []T {
 	return cls
 }
 
+// c03Extra: goals of the opaque wrappers that are themselves disjunctions with a cut in a disjunct (the cut is local to
+// the wrapper and commits its disjunction), among them the Recovery of a catch/3 that has caught an error. They
+// are combined with every item in bodies of length <= 2 only.
+var c03Extra = []string{
+	"catch(throw(e), _, (g(Y), ! ; put_char(n)))", "catch((g(Y), Y > 1, throw(e)), _, (g(Y), ! ; put_char(n)))", "catch(throw(e), _, (g(Y), Y > 1, !, put_char(m) ; put_char(n)))",
+	"catch(throw(e), _, (put_char(n) ; g(Y), !))", "catch(throw(e), _, (g(Y), !))", "call((g(Y), ! ; put_char(n)))", "call((g(Y), Y > 1, ! ; put_char(n)))",
+	"findall(Y, (g(Y), ! ; Y = 0), L)", "\\+ (g(Y), !, fail ; fail)", "once((g(Y), Y > 1, ! ; put_char(n)))", "catch((g(Y), ! ; put_char(n)), _, true)",
+	"call_nth((g(Y), ! ; put_char(n)), N)", "G = (g(Y), ! ; put_char(n)), G", "catch(atom_length(_, _), _, (g(Y), ! ; put_char(n)))",
+}
+
 func c03Work(w *h.W) {
 	c03Sweep(w)
 	run := func(cls []T, size int) {
@@ -143,6 +153,27 @@ func c03Work(w *h.W) {
 			pc.Steps = append(pc.Steps, h.Query(rd(c), 40))
 		}
 		runProgCase(w, "cut", pc, size)
+	}
+	for _, x := range c03Extra {
+		for i := -1; i < len(c03Items); i++ {
+			for _, first := range []bool{true, false} {
+				if i < 0 && !first {
+					continue
+				}
+				if !w.Mine() {
+					continue
+				}
+				vars := map[string]*ref.Var{}
+				body := []T{rdv(x, vars)}
+				if i >= 0 && first {
+					body = []T{rdv(x, vars), rdv(c03Items[i], vars)}
+				} else if i >= 0 {
+					body = []T{rdv(c03Items[i], vars), rdv(x, vars)}
+				}
+				run(c03Program([][]T{body}, []map[string]*ref.Var{vars}, 0), len(body))
+				run(c03Program([][]T{body}, []map[string]*ref.Var{vars}, 3), len(body))
+			}
+		}
 	}
 	n := len(c03Items)
 	// shape 0: all bodies up to the length bound that contain a cut or an opaque wrapper
@@ -229,7 +260,7 @@ func c03Two(w *h.W, run func([]T, int), a, b []int, shape int) {
 func init() {
 	h.Register(&h.Check{
 		ID: "C03",
-		Rule: "all control skeletons: predicate t/2 whose enumerated clause body is every sequence of <= L items over 46 item shapes (generators that trace entry/redo on the output, tests, '!', recursive/cutting sub-predicates, and the opaque wrappers call/1, call/2, \\+, once, ->, findall, bagof, setof, catch, call_nth containing cuts), placed between fixed clauses, as two enumerated clauses, and as a top-level disjunction; each skeleton is run in 14 calling contexts (older choice points before/after, inside findall, as last call, three levels deep, under call/N, \\+, ->, once, call_nth, followed by a cut). Cuts occur only as direct conjuncts of a clause body or top-level disjunct, as the property states. Non-trivial = the reference yields an answer or error; distinct = program text.",
+		Rule: "all control skeletons: predicate t/2 whose enumerated clause body is every sequence of <= L items over 46 item shapes (generators that trace entry/redo on the output, tests, '!', recursive/cutting sub-predicates, and the opaque wrappers call/1, call/2, \\+, once, ->, findall, bagof, setof, catch, call_nth containing cuts), placed between fixed clauses, as two enumerated clauses, and as a top-level disjunction; plus 14 wrapper goals that are disjunctions with a cut in a disjunct (among them the Recovery of a catch/3 that has caught an error), alone and before/after every item; each skeleton is run in 14 calling contexts (older choice points before/after, inside findall, as last call, three levels deep, under call/N, \\+, ->, once, call_nth, followed by a cut). Cuts occur only as direct conjuncts of a clause body or top-level disjunct, as the property states. Non-trivial = the reference yields an answer or error; distinct = program text.",
 		Explanation: "state = one skeleton program loaded into a fresh real interpreter; transition = one context query run to exhaustion, comparing the answer sequence AND the character trace written by every generator clause with the reference machine (ISO cut barriers)",
 		Assumptions: []string{"reference machine ref/solve implements ISO 7.8.4 cut semantics (self-checked against the ISO examples)", "placements of '!' inside nested ;/,/-> are excluded: this implementation makes them local by design and the property excludes them"},
 		Work:        c03Work,
